@@ -30,7 +30,8 @@ func (m *SyncMap[K, V]) Load(key K) (value V, ok bool) {
 		return
 	}
 
-	return v.(V), ok
+	value, _ = v.(V)
+	return value, ok
 }
 
 // Store sets the value for a key.
@@ -44,7 +45,8 @@ func (m *SyncMap[K, V]) Swap(key K, value V) (previous V, loaded bool) {
 	if !l {
 		return
 	}
-	return v.(V), l
+	previous, _ = v.(V)
+	return previous, l
 }
 
 // Delete deletes the value for a key.
@@ -56,7 +58,8 @@ func (m *SyncMap[K, V]) Delete(key K) {
 // Otherwise, it stores and returns the given value. The loaded result is true if the value was loaded, false if stored.
 func (m *SyncMap[K, V]) LoadOrStore(key K, value V) (actual V, loaded bool) {
 	v, l := m.Map.LoadOrStore(key, value)
-	return v.(V), l
+	actual, _ = v.(V)
+	return actual, l
 }
 
 // LoadAndDelete deletes the value for a key, returning the previous value if any.
@@ -66,7 +69,8 @@ func (m *SyncMap[K, V]) LoadAndDelete(key K) (value V, loaded bool) {
 	if !l {
 		return
 	}
-	return v.(V), l
+	value, _ = v.(V)
+	return value, l
 }
 
 // CompareAndDelete deletes the entry for key if its value is equal to old.
@@ -83,7 +87,8 @@ func (m *SyncMap[K, V]) CompareAndSwap(key K, old V, new V) bool {
 // Range calls f sequentially for each key and value present in the map. If f returns false, range stops the iteration.
 func (m *SyncMap[K, V]) Range(f func(key K, value V) bool) {
 	m.Map.Range(func(k any, v any) bool {
-		return f(k.(K), v.(V))
+		value, _ := v.(V)
+		return f(k.(K), value)
 	})
 }
 
@@ -91,9 +96,10 @@ func (m *SyncMap[K, V]) Range(f func(key K, value V) bool) {
 func (m *SyncMap[K, V]) Iterate() iter.Seq2[K, V] {
 	return func(yield func(K, V) bool) {
 		for anyKey, anyValue := range m.Map.Range {
+			value, _ := anyValue.(V)
 			if !yield(
 				anyKey.(K),
-				anyValue.(V),
+				value,
 			) {
 				break
 			}
